@@ -406,6 +406,18 @@ fn stored_cases() -> Vec<Vec<u8>> {
     v
 }
 
+/// streams for the call-history family (decompress(x) then decompress(y) on one thread)
+fn history_streams() -> Vec<Vec<u8>> {
+    let lits: Vec<Token> = (0..9).map(|i| Token::Lit(i as u8 + 1)).collect();
+    let mut with_ref = lits.clone();
+    with_ref.push(Token::Ref { len: 300, disp: 9 });
+    let lz10 = ref_lz::encode(&[Token::Lit(5), Token::Lit(6), Token::Ref { len: 18, disp: 2 }], Kind::Lz10, 20, None);
+    let lz11 = ref_lz::encode(&with_ref, Kind::Lz11, 309, None);
+    let mut v = vec![vec![], vec![0x10], lz10.clone(), lz11.clone(), wrap13(&lz11), vec![0, 0, 0, 0, 9, 9], lz10[..lz10.len() - 1].to_vec(), ref_lz::encode(&[Token::Lit(1), Token::Ref { len: 3, disp: 1 }], Kind::Lz10, 4, Some((1, 5))), ref_lz::encode(&[], Kind::Lz11, 0, None)];
+    v.push(ref_lz::encode(&lits, Kind::Lz10, 9, None));
+    v
+}
+
 fn run_case(tier: Tier, fam: &str, idx: u64, t: &mut Tally) {
     if fam == "arb" {
         let b = arb_nth(idx);
@@ -413,6 +425,20 @@ fn run_case(tier: Tier, fam: &str, idx: u64, t: &mut Tally) {
         for e in ENTRIES {
             if let Some((sig, summary)) = check(e, &b, "arbitrary bytes", t) {
                 t.violate(sig, summary, json!({"family": fam, "index": idx, "hex": util::hex(&b)}));
+            }
+        }
+        return;
+    }
+    if fam == "hist" {
+        let all = history_streams();
+        let n = all.len() as u64;
+        let (x, y) = (&all[(idx / n) as usize], &all[(idx % n) as usize]);
+        t.cases += 1;
+        t.nontrivial += 1;
+        for e in ENTRIES {
+            let _ = e.call(x);
+            if let Some((sig, summary)) = check(e, y, "a stream decompressed right after another call", t) {
+                t.violate(format!("after-previous-call:{}", sig), summary, json!({"family": fam, "index": idx}));
             }
         }
         return;
@@ -439,6 +465,8 @@ fn families(tier: Tier) -> Vec<Family> {
     let mut f: Vec<Family> = specs(tier).iter().map(|s| Family::new(s.tag.clone(), spec_count(s))).collect();
     f.push(Family::new("arb", arb_count()));
     f.push(Family::new("stored", stored_cases().len() as u64));
+    let h = history_streams().len() as u64;
+    f.push(Family::new("hist", h * h));
     f
 }
 
